@@ -414,8 +414,10 @@ class PlainTermsReader(base.TermsReader, LineReader):
         return self._find_terminfo()
 
     def matcher(self, fieldname, btext, format_, scorer=None):
-        if not self._find_term(fieldname, btext):
-            raise TermNotFound((fieldname, btext))
+        # The term's statistics come after its postings in the file: read
+        # them first (raises TermNotFound), then go back to the postings
+        terminfo = self.term_info(fieldname, btext)
+        self._find_term(fieldname, btext)
 
         ids = []
         weights = []
@@ -427,7 +429,8 @@ class PlainTermsReader(base.TermsReader, LineReader):
             values.append(c["v"])
             c = self._find_line(3, "POST")
 
-        return ListMatcher(ids, weights, values, format_, scorer=scorer)
+        return ListMatcher(ids, weights, values, format_, scorer=scorer,
+                           term=(fieldname, btext), terminfo=terminfo)
 
     def close(self):
         self._dbfile.close()
